@@ -1162,6 +1162,45 @@ class C10(fw.Prop):
             return [type(ex).__name__]
 
     @staticmethod
+    def _view(e):
+        """The Extension OBJECT as it is, read through its public attributes and written in the shape of a
+        document by the harness (payloads -- type parameters, type expressions, constants -- in hugr-py's own
+        serial form, as everywhere): what "serializing the extension" has to correspond to, independent of any
+        document the object may have kept."""
+        from hugr import ext, tys
+
+        def dump(x):
+            return x._to_serial_root().model_dump(mode="json")
+        types, values, ops = {}, {}, {}
+        for k, t in e.types.items():
+            b = t.bound
+            if isinstance(b, ext.ExplicitBound):
+                sb = {"b": "Explicit", "bound": "C" if b.bound == tys.TypeBound.Copyable else "A"}
+            elif isinstance(b, ext.FromParamsBound):
+                sb = {"b": "FromParams", "indices": list(b.indices)}
+            else:
+                raise FailClosed("bound object %r" % (b,))
+            types[k] = {"extension": t.get_extension().name, "name": t.name, "description": t.description,
+                        "params": [dump(q) for q in t.params], "bound": sb}
+        for k, v in e.values.items():
+            values[k] = {"extension": v.get_extension().name, "name": v.name, "typed_value": dump(v.val)}
+        for k, o in e.operations.items():
+            pf = o.signature.poly_func
+            sig = None
+            if pf is not None:
+                sig = {"params": [dump(q) for q in pf.params],
+                       "body": {"input": [dump(t) for t in pf.body.input], "output": [dump(t) for t in pf.body.output],
+                                "runtime_reqs": list(pf.body.runtime_reqs)}}
+            if o.lower_funcs:
+                raise FailClosed("lowering functions are outside the property's quantifier")
+            ops[k] = {"extension": o.get_extension().name, "name": o.name, "description": o.description,
+                      "misc": json.loads(json.dumps(o.misc)), "signature": sig, "binary": bool(o.signature.binary)}
+        v = e.version
+        vs = "%d.%d.%d" % (v.major, v.minor, v.patch) + ("-" + v.prerelease if v.prerelease else "") + ("+" + v.build if v.build else "")
+        return {"version": vs, "name": e.name, "runtime_reqs": sorted(e.runtime_reqs), "types": types, "values": values,
+                "operations": ops}
+
+    @staticmethod
     def _write(e, via):
         """the extension's document through one of the public writers -> (dict, loader of that very text)"""
         import warnings
@@ -1214,9 +1253,10 @@ class C10(fw.Prop):
                 def first():
                     d, _ = self._write(e, g["via"])
                     return d
+                view1 = self._guard(lambda: self._view(e))      # the object BEFORE anything is written at this point
                 before = self._guard(first)
                 own1 = self._owners(e)
-                after, own2, api2 = before, [], None
+                after, own2, api2, view2 = before, [], None, ["skipped"]
                 if before[0] == "ok":
                     def again():
                         _, load = self._write(e, g["via"])      # written a second time, as for CHist
@@ -1228,7 +1268,9 @@ class C10(fw.Prop):
                         own2 = self._owners(e2)
                         v = e2.version
                         api2 = [e2.name, [v.major, v.minor, v.patch, v.prerelease, v.build], sorted(e2.runtime_reqs)]
-                points.append({"before": before, "after": after, "own1": own1, "own2": own2, "api2": api2})
+                        view2 = self._guard(lambda: self._view(e2))
+                points.append({"before": before, "after": after, "own1": own1, "own2": own2, "api2": api2,
+                               "view1": view1, "view2": view2})
                 if g["reload"] and "e2" in box:
                     e = box["e2"]
             if bad is None:
@@ -1349,7 +1391,7 @@ class C10(fw.Prop):
                 api2 = None if a is None else gpair(gpair(gN(I(a[0])), g_version(a[1], I)), g_names_sorted(a[2], I))
                 segs.append(gapp("mkSeg", glist(self._g_cmd(g["cmds"][i], I) for i in kept), gbool(g["reload"]),
                                  g_ores(o["before"], I), g_ores(o["after"], I), g_owners(o["own1"], I), g_owners(o["own2"], I),
-                                 gopt(api2)))
+                                 gopt(api2), g_ores(o["view1"], I), g_ores(o["view2"], I)))
             return gapp("CSeq", gN(I(case["name"])), g_version(case["version"], I), g_names(case["reqs"], I), glist(segs))
         if case["kind"] == "shared":
             for h in case["exts"]:
@@ -1408,6 +1450,11 @@ class C10(fw.Prop):
                 for f in ("types", "operations", "values"):
                     if set(b[1].get(f, {})) != added[f]:
                         return "ext:seq:stale-document:" + f
+                if o["view1"][0] != "ok":
+                    return "ext:seq:object:" + o["view1"][0]
+                for f in ("types", "operations", "values"):
+                    if {k: x.get("description") for k, x in b[1][f].items()} != {k: x.get("description") for k, x in o["view1"][1][f].items()}:
+                        return "ext:seq:document-vs-object:" + f
                 if a[0] != "ok":
                     return "ext:seq:load:" + a[0]
                 if any(not m for _, m, _ in o["own1"] + o["own2"]):
